@@ -212,12 +212,14 @@ func RefMain(args []string) {
 	}
 	cand := candidates()
 	out := refOutput{Digest: candDigest(cand), Order: order, H: make([]uint64, len(cand)), Note: make([]string, len(cand)), Harvest: pl.harvest}
+	x := newOctx(pl)
 	for _, i := range orderOf(order, len(cand)) {
 		s := &cand[i]
-		r := execOp(pl, s.kind, pl.inputs[s.input], s.variant)
+		x.setMode(refMode(order, i))
+		r := execOp(x, s.kind, pl.inputs[s.input], s.variant)
 		out.H[i], out.Note[i] = r.h, r.note
 	}
-	for _, f := range canaryCheck("a sequential single-goroutine pass (" + order + " order)") {
+	for _, f := range append(x.finds, canaryCheck("a sequential single-goroutine pass ("+order+" order)")...) {
 		out.Canary = append(out.Canary, f.key+"\x00"+f.what)
 	}
 	b, _ := json.Marshal(out)
@@ -247,6 +249,20 @@ func runRef(order string) (*refOutput, error) {
 }
 
 var refOrders = []string{"forward", "reverse", "permuted"}
+
+// refMode is the capacity mode of candidate i in a reference pass: every
+// candidate runs tight in one of forward/reverse and roomy in the other, so
+// the comparison of the passes also compares the two modes.
+func refMode(order string, i int) uint64 {
+	h := runner.HashStr("c20-mode", fmt.Sprint(i))
+	switch order {
+	case "reverse":
+		return h ^ 1
+	case "permuted":
+		return h >> 7
+	}
+	return h
+}
 
 // setup loads the pool and obtains the reference result of every
 // (kind, input, variant) from three FRESH single-goroutine processes that run
@@ -322,7 +338,7 @@ func setup(env *runner.Env) error {
 				if stable {
 					setupFindings = append(setupFindings, finding{
 						key: "hidden-state/" + kindNames[s.kind],
-						what: fmt.Sprintf("%s, run single-goroutine in a fresh process, gave %016x (%s) when the operations were executed in forward order and %016x (%s) in %s order: the result depends on which calls were made before (hidden mutable state)",
+						what: fmt.Sprintf("%s, run single-goroutine in a fresh process, gave %016x (%s) when the operations were executed in forward order and %016x (%s) in %s order: the result depends on which calls were made before (hidden mutable state) or on the spare capacity of the caller's slices (the passes differ in that, too)",
 							descOf(s), s.want.h, s.want.note, got.h, got.note, refOrders[j]),
 						detail: map[string]interface{}{"kind": kindNames[s.kind], "input": pl.inputs[s.input].id, "variant": s.variant, "order": refOrders[j]},
 					})
@@ -370,33 +386,62 @@ func descOf(s *spec) string {
 	return fmt.Sprintf("%s(%s, variant %d)", kindNames[s.kind], pl.inputs[s.input].id, s.variant)
 }
 
-// canaryCheck compares every shared buffer with its pristine digest; a
-// changed buffer is reported and restored.
+// canaryCheck compares every shared arena (head guard, data, tail guard: all
+// bytes up to the capacity of any view handed to the library) with its
+// pristine digest, and the spare slots of the caller-owned lists with their
+// sentinel; what changed is reported and restored.
 func canaryCheck(when string) []finding {
 	var out []finding
 	for _, s := range pl.bufs {
-		if sha256.Sum256(s.data) == s.sum {
+		if sha256.Sum256(s.arena) == s.sum {
 			continue
 		}
-		first, n := -1, 0
-		for i := range s.data {
-			if s.data[i] != s.pristine[i] {
+		first, n, inside := -1, 0, 0
+		for i := range s.arena {
+			if s.arena[i] != s.pristine[i] {
 				if first < 0 {
 					first = i
 				}
 				n++
+				if i >= s.off && i < s.off+s.n {
+					inside++
+				}
 			}
 		}
 		cls := s.name
 		if i := strings.Index(cls, "/"); i > 0 {
 			cls = cls[:i]
 		}
+		key := "canary/" + s.name
+		what := fmt.Sprintf("shared read-only buffer %s (%d bytes) was modified during %s: %d bytes differ, first at offset %d", s.name, s.n, when, n, first-s.off)
+		if inside == 0 {
+			// nothing inside the buffer: the bytes in front of / behind it (the spare
+			// capacity of the slice the library was given) were written
+			key = "canary-cap/" + s.name
+			what = fmt.Sprintf("the memory around shared read-only buffer %s (%d bytes) was modified during %s: %d bytes differ, first at offset %d relative to the buffer start (offsets >= %d are the spare capacity behind the slice's length)", s.name, s.n, when, n, first-s.off, s.n)
+		}
 		out = append(out, finding{
-			key:    "canary/" + s.name,
-			what:   fmt.Sprintf("shared read-only buffer %s (%d bytes) was modified during %s: %d bytes differ, first at offset %d", s.name, len(s.data), when, n, first),
-			detail: map[string]interface{}{"buffer": s.name, "class": cls, "when": when, "bytes_changed": n, "first_offset": first},
+			key:    key,
+			what:   what,
+			detail: map[string]interface{}{"buffer": s.name, "class": cls, "when": when, "bytes_changed": n, "bytes_changed_inside_len": inside, "first_offset": first - s.off, "len": s.n},
 		})
-		copy(s.data, s.pristine)
+		copy(s.arena, s.pristine)
+	}
+	for _, l := range pl.lists {
+		bad := 0
+		for i := l.n; i < len(l.full); i++ {
+			if len(l.full[i]) != len(pl.sentinel) || &l.full[i][0] != &pl.sentinel[0] {
+				bad++
+				l.full[i] = pl.sentinel
+			}
+		}
+		if bad > 0 {
+			out = append(out, finding{
+				key:    "canary-cap/list",
+				what:   fmt.Sprintf("the caller-owned list of NAL units %q (%d elements) was extended in place during %s: %d spare slots behind its length were overwritten", l.name, l.n, when, bad),
+				detail: map[string]interface{}{"list": l.name, "when": when, "slots": bad},
+			})
+		}
 	}
 	return out
 }
@@ -418,6 +463,9 @@ type gres struct {
 	samples    int64 // in-flight samples that saw at least one other operation
 	mism       []mismatch
 	nMism      int64
+	finds      []finding
+	roomyOps   int64
+	directOps  int64
 }
 
 type tracker struct{ inflight [nKinds]int32 }
@@ -443,6 +491,8 @@ func (t *tracker) enter(kind int, g *gres) {
 func (t *tracker) leave(kind int) { atomic.AddInt32(&t.inflight[kind], -1) }
 
 func worker(r *runner.Rand, g *gres, gor, round, nOps int, tr *tracker) {
+	x := newOctx(pl)
+	defer func() { g.finds = append(g.finds, x.finds...) }()
 	for i := 0; i < nOps; i++ {
 		kind := liveKinds[r.Intn(len(liveKinds))]
 		b := kindBatch[kind]
@@ -455,7 +505,14 @@ func worker(r *runner.Rand, g *gres, gor, round, nOps int, tr *tracker) {
 		for j := 0; j < b; j++ {
 			si := byKind[kind][r.Intn(len(byKind[kind]))]
 			s := &specs[si]
-			got := execOp(pl, s.kind, pl.inputs[s.input], s.variant)
+			x.setMode(r.Uint64() >> 13)
+			if x.roomy {
+				g.roomyOps++
+			}
+			if x.direct {
+				g.directOps++
+			}
+			got := execOp(x, s.kind, pl.inputs[s.input], s.variant)
 			g.evals++
 			if got != s.want {
 				g.nMism++
@@ -512,8 +569,10 @@ func runLockstep(r *runner.Rand, K int) *gres {
 	total := &gres{}
 	order := r.Perm(len(specs))
 	out := make([]*gres, K)
+	xs := make([]*octx, K)
 	for i := range out {
 		out[i] = &gres{}
+		xs[i] = newOctx(pl)
 	}
 	for phase, si := range order {
 		s := &specs[si]
@@ -524,8 +583,17 @@ func runLockstep(r *runner.Rand, K int) *gres {
 			go func(g int) {
 				defer wg.Done()
 				<-start
-				got := execOp(pl, s.kind, pl.inputs[s.input], s.variant)
+				// goroutines 0,2 tight, 1,3 roomy; 3 hands shared keys over directly
+				mode := uint64(g & 1)
+				if g == 3 {
+					mode |= 6
+				}
+				xs[g].setMode(mode)
+				got := execOp(xs[g], s.kind, pl.inputs[s.input], s.variant)
 				gr := out[g]
+				if xs[g].roomy {
+					gr.roomyOps++
+				}
 				gr.evals++
 				gr.ops++
 				gr.kindOps[s.kind]++
@@ -540,10 +608,12 @@ func runLockstep(r *runner.Rand, K int) *gres {
 		close(start)
 		wg.Wait()
 	}
-	for _, g := range out {
+	for i, g := range out {
 		total.evals += g.evals
 		total.ops += g.ops
 		total.nMism += g.nMism
+		total.roomyOps += g.roomyOps
+		total.finds = append(total.finds, xs[i].finds...)
 		total.mism = append(total.mism, g.mism...)
 		for k := 0; k < nKinds; k++ {
 			total.kindOps[k] += g.kindOps[k]
@@ -564,7 +634,14 @@ func run(c *runner.Ctx, idx int) {
 		for k := 0; k < nKinds; k++ {
 			c.Seen("specs_per_kind", fmt.Sprintf("%s=%d", kindNames[k], len(byKind[k])))
 		}
-		c.Seen("pool", fmt.Sprintf("buffers=%d,inputs=%d,specs=%d", len(pl.bufs), len(pl.inputs), len(specs)))
+		c.Seen("pool", fmt.Sprintf("buffers=%d,inputs=%d,specs=%d,guarded_lists=%d", len(pl.bufs), len(pl.inputs), len(specs), len(pl.lists)))
+		nb := map[string]int{}
+		for _, in := range pl.inputs {
+			if in.class == "box" {
+				nb[in.boxType]++
+			}
+		}
+		c.Seen("pool_boxes", fmt.Sprintf("dac3=%d,dec3=%d,types=%d", nb["dac3"], nb["dec3"], len(nb)))
 	}
 	if len(liveKinds) == 0 {
 		c.Inconclusive("no-order-independent-operation-left")
@@ -626,6 +703,10 @@ func run(c *runner.Ctx, idx int) {
 		for _, m := range g.mism {
 			report(m, "cold lockstep round: 4 goroutines released together on the same spec", false)
 		}
+		for _, f := range g.finds {
+			c.Violation(f.key, f.what+" (cold lockstep round)", f.detail)
+		}
+		c.Count("executions_with_spare_capacity_slices", g.roomyOps)
 		for k := 0; k < nKinds; k++ {
 			if g.kindOps[k] > 0 {
 				c.Count("ops:"+kindNames[k], g.kindOps[k])
@@ -666,6 +747,11 @@ func run(c *runner.Ctx, idx int) {
 			for _, m := range g.mism {
 				report(m, fmt.Sprintf("one of %d goroutines", cfg.G), tracked)
 			}
+			for _, f := range g.finds {
+				c.Violation(f.key, fmt.Sprintf("%s (goroutine of round %d, %s)", f.what, round, cfgName), f.detail)
+			}
+			c.Count("executions_with_spare_capacity_slices", g.roomyOps)
+			c.Count("executions_with_shared_key_handed_over_directly", g.directOps)
 		}
 		totalEvals += evals
 		if tracked {
